@@ -615,4 +615,52 @@ theorem tie_chainedKeys :
        "return nil, false"] := by
   refine ⟨?_, ?_⟩ <;> decide
 
+/-! ### round 5c: a fresh target per entry / per element (`Props.mapEntries_independent`, `mapElems_independent`)
+
+The model converts every entry of a map and every element of a slice with a pure function of that entry's / element's
+own input (`Model.mapEntries` / `mapElems`).  The code matches that iff no per-entry target outlives its iteration:
+every scratch value is allocated inside the loop (or is a slot addressed by the loop variable) and nothing that is stored
+into the result inside a loop was declared outside it.  (Seeded C08-9 hoisted `reflect.New` out of generateMap's loop:
+`generateMapAllocs` then reports depth 0 and `generateMapHoisted` lists `target`.) -/
+
+/-- the scratch allocations (`reflect.New`) of a function all sit at loop depth ≥ `d` -/
+def scratchDepthAtLeast (d : Int) (allocs : List (String × Int)) : Bool :=
+  allocs.all fun a => !(a.1.toList.take 11 == "reflect.New".toList) || decide (d ≤ a.2)
+
+/-- the container itself (`reflect.MakeMap…` / `reflect.MakeSlice`) is made once, outside the loop -/
+def containerOnce (allocs : List (String × Int)) : Bool :=
+  allocs.all fun a => !(a.1.toList.take 12 == "reflect.Make".toList) || decide (a.2 = 0)
+
+/-- `generateMap`: one result map made before the loop, every scratch target made inside it (three sites: slice, struct and
+number elements), every store into the result inside the loop, and nothing stored inside the loop was declared outside it;
+the per-entry calls are handed the in-loop target and the entry's own data -/
+theorem tie_generateMap_fresh_target :
+    scratchDepthAtLeast 1 generateMapAllocs = true
+    ∧ containerOnce generateMapAllocs = true
+    ∧ (generateMapAllocs.filter fun a => a.1.toList.take 11 == "reflect.New".toList).length = 3
+    ∧ generateMapStores.all (fun st => decide (st.2 = 1)) = true
+    ∧ generateMapHoisted = []
+    ∧ generateMapElemCalls =
+        ["u.fillSlice(dereffedElemType, target.Elem(), keythData, mapFullName)",
+         "u.unmarshal(keythMap, target.Interface(), mapFullName)",
+         "u.generateMap(dereffedElemType.Key(), dereffedElemType.Elem(), keythMap, mapFullName)"] := by
+  refine ⟨?_, ?_, ?_, ?_, ?_, ?_⟩ <;> decide +kernel
+
+/-- `fillSlice` / `fillSliceFromString`: one result slice made before the loop; the per-element target is the slot of the loop
+variable (`conv.Index(i)` / `conv, i`), the per-element input the element of the loop variable; nothing is stored into the
+result inside the loop from a variable declared outside it; `fillStructElement` and `fillSliceValue` (called once per element)
+allocate their scratch value on every call -/
+theorem tie_fillSlice_fresh_target :
+    containerOnce fillSliceAllocs = true ∧ containerOnce fillSliceFromStringAllocs = true
+    ∧ fillSliceElemCalls =
+        ["u.fillStructElement(baseType, conv.Index(i), ithValue, sliceFullName)",
+         "u.fillSlice(baseType, conv.Index(i), ithValue, sliceFullName)",
+         "u.fillSliceValue(conv, i, dereffedBaseKind, ithValue, sliceFullName)"]
+    ∧ fillSliceFromStringElemCalls = ["u.fillSliceValue(conv, i, baseFieldKind, slice[i], fullName)"]
+    ∧ fillSliceHoisted = [] ∧ fillSliceFromStringHoisted = [] ∧ fillSliceValueHoisted = [] ∧ fillStructElementHoisted = []
+    ∧ fillStructElementAllocs = [("reflect.New(Deref(baseType))", 0)]
+    ∧ fillSliceValueAllocs = [("reflect.New(baseType)", 0)]
+    ∧ fillStructElementStores = [("SetValue(baseType, target, ptr.Elem())", 0)] := by
+  refine ⟨?_, ?_, ?_, ?_, ?_, ?_, ?_, ?_, ?_, ?_, ?_⟩ <;> decide +kernel
+
 end GoZero.C08.Tie
